@@ -28,24 +28,24 @@ def key_has(keys: L, s: Py) -> B:
     return key_has(tail(keys), s)
 
 
-def key_index(keys: L, s: Py) -> I:
-    """Position of the FIRST constant key equal to s (Python ==); len(keys) if there is none."""
+def key_last(keys: L, s: Py) -> I:
+    """Position of the LAST constant key equal to s (Python ==): the entry a Python dict display
+    keeps when a key is written more than once.  Meaningful when key_has(keys, s)."""
     if is_empty(keys):
         return 0
-    if isinstance(head(keys), ast.Constant):
-        if head(keys).value == s:
-            return 0
-    return 1 + key_index(tail(keys), s)
+    if key_has(tail(keys), s):
+        return 1 + key_last(tail(keys), s)
+    return 0
 
 
 def dict_lookup(v: Py, s: Py) -> Py:
-    """visit_Subscript_Dict_with_value: None unless every key is a constant and one equals s;
-    then the value written next to the first such key."""
+    """What Python's `{k0: v0, ...}[s]` evaluates to, as an expression: None unless every key is
+    a constant and one equals s; then the value written next to the LAST such key."""
     if not all_const_keys(v.keys):
         return None
     if not key_has(v.keys, s):
         return None
-    return nth(v.values, key_index(v.keys, s))
+    return nth(v.values, key_last(v.keys, s))
 
 
 def dict_resolves(v: Py, s: Py) -> B:
@@ -56,8 +56,20 @@ def lem_kh(d: L, r: L, s: Py) -> B:
     return implies(not key_has(d, s), key_has(concat(d, r), s) == key_has(r, s))
 
 
-def lem_ki(d: L, r: L, s: Py) -> B:
-    return implies(not key_has(d, s), key_index(concat(d, r), s) == len(d) + key_index(r, s))
+def lem_kha(d: L, r: L, s: Py) -> B:
+    return key_has(concat(d, r), s) == (key_has(d, s) or key_has(r, s))
+
+
+def lem_klr(d: L, r: L, s: Py) -> B:
+    return implies(key_has(r, s), key_last(concat(d, r), s) == len(d) + key_last(r, s))
+
+
+def lem_kld(d: L, r: L, s: Py) -> B:
+    return implies(key_has(d, s) and not key_has(r, s), key_last(concat(d, r), s) == key_last(d, s))
+
+
+def lem_klb(d: L, s: Py) -> B:
+    return implies(key_has(d, s), 0 <= key_last(d, s) and key_last(d, s) < len(d))
 
 
 def lem_ack(d: L, r: L) -> B:
